@@ -657,11 +657,13 @@ def run(ctx):
     # (a default of False would turn a stored layered simulation into a 3D
     # one), and the [layered] section, which the documentation does not list
     # among the sections ignored with --load, reaches the loaded simulation
+    from ..core.template import same as _same
     lb = [n_ for n_ in ast.walk(rs) if isinstance(n_, ast.If) and
-          ast.unparse(n_.test).replace('"', "'") == "cfg['files']['load']"]
+          _same("_c_['files']['load']", n_.test) is not None]
     ctx.anchor(len(lb) == 1, "`if cfg['files']['load']:` branch in cli.run")
     lbody = lb[0].body
-    lg_ = find("_l_ = cfg['simulation_options'].get('layered', _d_)", lbody)
+    CF = _same("_c_['files']['load']", lb[0].test)['_c_']
+    lg_ = find(f"_l_ = {CF}['simulation_options'].get('layered', _d_)", lbody)
     okl = len(lg_) == 1 and lg_[0][1]['_d_'] == 'None'
     if okl:
         L_ = lg_[0][1]['_l_']
